@@ -36,6 +36,14 @@ func TestReplay(t *testing.T) {
 		checkAgent(t, ac)
 		return
 	}
+	if cf.Sub == "cli" {
+		var ac AgentCase
+		if err := json.Unmarshal(cf.Case, &ac); err != nil {
+			t.Fatal(err)
+		}
+		checkCLI(t, ac)
+		return
+	}
 	if cf.Sub != "sched" {
 		t.Skip("not a sched case")
 	}
